@@ -23,7 +23,7 @@ from ..common import seed
 Q = 256
 METHODS = ["std", "iqr", "mad", "diffcov", "biweight", "qn", "sn", "gapper"]
 ZMETHODS = METHODS + ["doublemad"]
-EXACT = [(2, 1, 3), (-2, 1, 0), (1, 2, -4), (4, 1, 100), (-1, 1, 7), (3, 1, 0), (100, 1, -50), (-1, 4, 1)]
+EXACT = [(2, 1, 3), (-2, 1, 0), (1, 2, -4), (4, 1, 100), (-1, 1, 7), (3, 1, 0), (100, 1, -50), (-1, 4, 1), (4, 1, 1048576), (1, 1, 500000)]
 GENERAL = [(1, 100, 5), (-1, 100, 0), (1, 3, 2), (-10, 3, 1), (10, 3, -7)]
 
 
@@ -89,6 +89,10 @@ def job(spec):
                 e["z1"] = [[_fx(v) for v in ln] for ln in lanes_of(z1, axis)]
                 rawb = np.broadcast_to(raw, X0.shape) if raw.shape != X0.shape else raw
                 e["scale0"] = [_fx(np.min(np.abs(ln)), 65536) for ln in lanes_of(rawb, axis)]
+                # float32 holds a*x+b and the location to 2^-24 relative: with a large baseline that is the dominant error
+                nz = [float(np.min(np.abs(ln))) for ln in lanes_of(rawb, axis) if float(np.min(np.abs(ln))) > 0]
+                if nz:
+                    e["tol"] = e["tol"] + int(math.ceil(2.0 ** -22 * mag * Q / (abs(a) * min(nz))))
                 locb = np.broadcast_to(np.asarray(zr0.loc), X0.shape)
                 e["loc0"] = [_fx(ln[0]) for ln in lanes_of(locb, axis)]
                 e["outcome"] = "ok"
